@@ -5,6 +5,7 @@ HERE = os.path.dirname(os.path.abspath(__file__))
 sys.path.insert(0, os.path.dirname(HERE))
 from unitlib import Unit, ClassInfo
 from prove import Group
+from cxx2c import ExtractError, find_function
 import common
 from common import BB_H, BB_C
 
@@ -37,6 +38,13 @@ def build():
     F('BitBoard_init_king', K_START, N_START)
     F('BitBoard_init_knight', N_START, P_START)
     F('BitBoard_init_pawn', P_START, r'#ifdef USE_BMI2\s*int tdSize = 0;')
+    # one row of squaresBetweenTable: the body of the outer loop `for (Square sq1 : AllSquares())` (header pinned), as a function of sq1
+    st = find_function(U.src(BB_C), 'BitBoard::staticInitialize')
+    mrow = re.search(r'for \(Square sq1 : AllSquares\(\)\) \{\s*(?=for \(Square j : AllSquares\(\)\))', st.body)
+    if not mrow or not re.search(r'\}\s*\}\s*\}\s*\}\s*\Z', st.body):
+        raise ExtractError('tiling pin changed: squaresBetween loop of BitBoard::staticInitialize')
+    U.fragment(BB_C, 'BitBoard_init_between_row', r'for \(Square j : AllSquares\(\)\)', r'\}\s*\Z', params=[('Square', 'sq1', False)], cls='BitBoard', is_static=True,
+               within='BitBoard::staticInitialize', within_kw={})
     F('BitBoard_init_between', B_START, r'\}\s*\}\s*\}\s*\}\s*$', include_end=True, rules=[(r'\}\s*$', '', 1)])
     return U
 
@@ -45,6 +53,9 @@ _ms = mg.SPEC[mg.SPEC.index('/* ---------------- rules of chess on a plain board
 SPEC = _ms.split('static U64 spec_occ')[0] + r'''
 #pragma CPROVER check pop
 int ghost_s, ghost_t; U64 ghost_v;
+#ifndef CASE_ROW
+#define CASE_ROW 0
+#endif
 static U64 spec_wblock(int sq) { U64 m = 0; int x = sq & 7, y = sq >> 3; for (int yy = y + 1; yy < 8; yy++) for (int dx = -1; dx <= 1; dx++) if (ON_BOARD(x + dx, yy)) m |= BITM(SQ(x + dx, yy)); return m; }
 static U64 spec_bblock(int sq) { U64 m = 0; int x = sq & 7, y = sq >> 3; for (int yy = y - 1; yy >= 0; yy--) for (int dx = -1; dx <= 1; dx++) if (ON_BOARD(x + dx, yy)) m |= BITM(SQ(x + dx, yy)); return m; }
 static U64 spec_epw(int f) { U64 m = 0; if (f > 0) m |= BITM(SQ(f - 1, 3)); if (f < 7) m |= BITM(SQ(f + 1, 3)); return m; }
@@ -63,6 +74,10 @@ CONTRACTS = {
                                                           '__CPROVER_object_whole(BitBoard_wPawnBlockerMaskTable)', '__CPROVER_object_whole(BitBoard_bPawnBlockerMaskTable)'],
                            'ensures': ['BitBoard_wPawnAttacksTable[ghost_s] == spec_wpawn_att(ghost_s) && BitBoard_bPawnAttacksTable[ghost_s] == spec_bpawn_att(ghost_s)',
                                        'BitBoard_wPawnBlockerMaskTable[ghost_s] == spec_wblock(ghost_s) && BitBoard_bPawnBlockerMaskTable[ghost_s] == spec_bblock(ghost_s)']},
+    # row sq1 of the table equals the geometric definition for every target square; only that row is written (assigns clause)
+    'BitBoard_init_between_row': {'requires': ['sq1 == CASE_ROW', '0 <= ghost_t && ghost_t < 64'],
+                                  'assigns': ['__CPROVER_object_upto(&BitBoard_squaresBetweenTable[sq1][0], 64 * sizeof(U64))'],
+                                  'ensures': ['BitBoard_squaresBetweenTable[sq1][ghost_t] == spec_between(sq1, ghost_t)']},
     'BitBoard_init_between': {'requires': [_S, 'ghost_v == spec_between(ghost_s, ghost_t)'], 'assigns': ['__CPROVER_object_whole(BitBoard_squaresBetweenTable)'],
                               'ensures': ['BitBoard_squaresBetweenTable[ghost_s][ghost_t] == spec_between(ghost_s, ghost_t)'],
                               'loops': {0: {'assigns': 'sq1, __CPROVER_object_whole(BitBoard_squaresBetweenTable)',
@@ -92,12 +107,19 @@ for n in ('epMask', 'king', 'knight', 'pawn', 'between'):
 for f in ('kingAttacks', 'knightAttacks', 'wPawnAttacks', 'bPawnAttacks'):
     HARNESS += 'void h_%s(void) { int s = nondet_int(); hv(); BitBoard_%s(s); CANARY_POINT; }\n' % (f, f)
     GROUPS.append(Group(f, 'h_' + f, enforce='BitBoard_' + f, min_props=2))
+HARNESS += 'void h_between_row(void) { int s = nondet_int(); hv(); BitBoard_init_between_row(s); CANARY_POINT; }\n'
+GROUPS.append(Group('init_between_row', 'h_between_row', enforce='BitBoard_init_between_row', min_props=3, timeout=900, cases=('CASE_ROW', list(range(64)))))
 HARNESS += 'void h_squaresBetween(void) { int a = nondet_int(), b = nondet_int(); hv(); BitBoard_squaresBetween(a, b); CANARY_POINT; }\n'
 GROUPS.append(Group('squaresBetween', 'h_squaresBetween', enforce='BitBoard_squaresBetween', min_props=2, canary=False,
                     note='canary switched off: the reachability query alone needs more than 10 min; the precondition is a single table equality'))
 UNWIND = {'spec_king_att': 4, 'spec_knight_att': 6, 'spec_between': 9, 'spec_wblock': 9, 'spec_bblock': 9,
           'BitBoard_init_epMask': 9, 'BitBoard_init_king': 65, 'BitBoard_init_knight': 65, 'BitBoard_init_pawn': [65, 9, 9],
           # loops of the squaresBetween fragment in source order: sq1 (contract), j, dx, dy, while(true)
-          'BitBoard_init_between': [None, 65, 4, 4, 9]}
-# init_between (squaresBetweenTable initialisation, outer loop contract + unrolled inner loops) did not finish in 30 min: not claimed
+          'BitBoard_init_between': [None, 65, 4, 4, 9], 'BitBoard_init_between_row': [65, 4, 4, 9]}
+# init_between (whole loop nest with an outer loop contract) did not finish in 30 min: not claimed; the table initialisation is proved row by row
+# (init_between_row: the body of the outer loop as a fragment, complete 64-way case split on the row; only that row is assigned)
 PROPERTIES = {'C01': [g.name for g in GROUPS if g.name != 'init_between']}
+
+MUTANTS = [
+    dict(name='between_includes_target', file='lib/texellib/bitBoard.cpp', pattern=r'                    squaresBetweenTable\[sq1\]\[sq2\] = m;\n                    m \|= 1ULL << sq2;', repl='                    m |= 1ULL << sq2;\n                    squaresBetweenTable[sq1][sq2] = m;', groups=['init_between_row']),
+]
